@@ -67,6 +67,8 @@ Judge ==
   /\ JS("C05", "MoneyFollowsLifecycle", MoneyFollowsLifecycle)
   /\ IsStep =>
        /\ J("C01", "CoinsMoveOnlyViaEscrow", CoinsMoveOnlyViaEscrow(r))
+       \* coins of another denomination are never moved by a marketplace transaction (they are in no recorded balance)
+       /\ J("C01", "ForeignCoinsUntouched", t.foreign = Trace[t.parent].foreign)
        /\ J("C02", "StepNoOvercharge", StepNoOvercharge(r))
        /\ J("C02", "NeverTransfersMoreThanDeposited", NeverTransfersMoreThanDeposited(r))
        /\ J("C02", "OverdraftDistribution", OverdraftDistribution(r))
